@@ -22,11 +22,12 @@ REPRS = ['plain', 'element', 'parsed']
 # how the additional ways of writing an operation read for the reference and the model
 ALIAS = {'ior_item': 'update', 'isub_item': 'discard', 'self_assign': 'read', 'assign_gen': 'read', 'assign_filter': 'discard',
          # a component handed out earlier (object set, attachment dictionary) is changed after the event was looked at / written
+         'deepcopy': 'copy',
          'add_held': 'add', 'discard_held': 'discard', 'att_setitem_held': 'att_setitem'}
 OP_KINDS = ['set', 'set1', 'del', 'add', 'remove', 'discard', 'update', 'clear', 'pop', 'set_properties', 'props_setter', 'iadd',
             'ior_item', 'isub_item', 'self_assign', 'assign_gen', 'assign_filter', 'add_held', 'discard_held', 'att_setitem_held',
             'set_attachment_dict', 'set_attachment_str', 'set_attachment_list', 'set_attachment_none', 'att_setitem', 'att_delitem',
-            'att_del', 'atts_setter', 'set_parents', 'add_parents', 'set_type', 'set_source', 'set_foreign', 'copy', 'read', 'write']
+            'att_del', 'atts_setter', 'set_parents', 'add_parents', 'set_type', 'set_source', 'set_foreign', 'copy', 'deepcopy', 'read', 'write']
 
 
 # ---- the reference: a dictionary of sets ---------------------------------------------------------------
@@ -218,6 +219,9 @@ def apply_real(events, op):
         e.set_foreign_attributes(dict(op['kv']))
     elif k == 'copy':
         events.append(e.copy())
+    elif k == 'deepcopy':
+        import copy
+        events.append(copy.deepcopy(e))
     elif k == 'write':
         # handing the event to a validating, repairing writer must not change it (the writer works on a copy)
         import io
@@ -336,6 +340,13 @@ def gen_ops(rng, initial, length, kinds=OP_KINDS):
         op = gen_op(rng, len(states), lambda i: states[i], kinds)
         ops.append(op)
         ref_apply(states, op)
+        if op['k'] in ('copy', 'deepcopy') and rng.random() < 0.5:
+            # nobody looks at the copy before it is changed: the first access of the fresh copy is a mutation
+            op['silent'] = True
+            nxt = gen_op(rng, len(states), lambda i: states[i], [k for k in kinds if k not in ('copy', 'deepcopy', 'read', 'write')] or kinds)
+            nxt['on'] = len(states) - 1
+            ops.append(nxt)
+            ref_apply(states, nxt)
     return ops
 
 
@@ -411,6 +422,8 @@ class C07(Property):
                     err = None
                 except Exception as ex:
                     err = type(ex).__name__
+                if op.get('silent') and err is None:
+                    continue
                 step = {'err': err, 'objects': []}
                 for e in events:
                     try:
@@ -438,6 +451,8 @@ class C07(Property):
         trace = []
         for op in case['ops']:
             ref_apply(states, op)
+            if op.get('silent'):
+                continue
             views = [ref_view(s) for s in states]
             eqs = []
             for i in range(len(states)):
@@ -461,7 +476,7 @@ class C07(Property):
 
     def predict(self, case, replies):
         # the model answers the abstract view and the XML view of every live object after every operation
-        steps = replies[0]['steps']
+        steps = [st for st, op in zip(replies[0]['steps'], case['ops']) if not op.get('silent')]
         out = {}
         for rep in REPRS:
             trace = []
@@ -482,8 +497,9 @@ class C07(Property):
             tr = obs[rep]
             if isinstance(tr, str):
                 continue
+            seen = [op for op in case['ops'] if not op.get('silent')]
             for n, (step, want) in enumerate(zip(tr, exp)):
-                op = case['ops'][n]
+                op = seen[n]
                 where = '%s event, after operation %d (%s)' % (rep, n, json.dumps(op, sort_keys=True, ensure_ascii=False))
                 if step['err']:
                     return '%s: raised %s' % (where, step['err'])
@@ -516,7 +532,7 @@ class C07(Property):
     def reductions(self, case):
         ops = case['ops']
         for i in range(len(ops) - 1, -1, -1):
-            if ops[i]['k'] == 'copy':
+            if ops[i]['k'] in ('copy', 'deepcopy'):
                 continue
             yield dict(case, ops=ops[:i] + ops[i + 1:])
         if len(ops) > 1:
